@@ -60,6 +60,28 @@ def _n(t, env, wide):
         c = t[1]
         return ("swap", _n(t[3], env, wide), _n(c[2][1], env, wide), _n(c[2][2], env, wide))
     if k == "upd":
+        # fold constant-index updates over a fixed-size base into an array literal
+        assigns = {}
+        base = t
+        while base[0] == "upd" and ((base[2][0] == "ci" and not base[2][2]) or (base[2][0] == "i" and base[2][1][0] == "int")):
+            kk = base[2][1] if base[2][0] == "ci" else base[2][1][1]
+            assigns.setdefault(kk, base[3])
+            base = base[1]
+        n_ = None
+        if base[0] == "repeat" and isinstance(base[2], int):
+            n_ = base[2]
+        elif base[0] == "agg" and base[1] == "array":
+            n_ = len(base[4])
+        if n_ is not None and assigns and all(0 <= kk < n_ for kk in assigns):
+            elems = []
+            for i_ in range(n_):
+                if i_ in assigns:
+                    elems.append(_n(assigns[i_], env, wide))
+                elif base[0] == "repeat":
+                    elems.append(_n(base[1], env, wide))
+                else:
+                    elems.append(_n(base[4][i_], env, wide))
+            return ("arr", tuple(elems))
         e = t[2]
         if e[0] == "i":
             return ("upd", _n(t[1], env, wide), _n(e[1], env, wide), _n(t[3], env, wide))
